@@ -39,6 +39,7 @@ type Profile struct {
 	DelBoundary  int // percent of pages ops that delete the boundary item
 	FewHash      bool // two partition values only: many items share a partition
 	RichValues   bool // items carry deep value trees of all ten types incl. boundary members
+	BinIndexKeys bool // indexes on a binary attribute, created over items one of which holds an empty binary there
 }
 
 type HistGen struct {
@@ -389,7 +390,18 @@ func valOp(v AV) *Operand         { return &Operand{Kind: "val", Val: v} }
 // condition on the target item, built so that it is true about half of the time
 func (g *HistGen) condTree(t *TableSpec) *Cond {
 	num := func() AV { return AV{T: "N", V: []byte(pick(g.r, simpleNumerals))} }
-	switch g.r.Intn(8) {
+	switch g.r.Intn(10) {
+	case 8:
+		// operands of two different types: never equal, always different, no order between them
+		op := pick(g.r, []string{"=", "<>", "=", "<>", "<"})
+		if g.r.Bool() {
+			return &Cond{K: "cmp", Op: op, L: pathOp("v"), R: valOp(AV{T: "N", V: []byte(pick(g.r, vVals))})}
+		}
+		return &Cond{K: "cmp", Op: op, L: pathOp("n1"), R: valOp(S(pick(g.r, simpleNumerals)))}
+	case 9:
+		// two attributes compared with one another: the item may have both, one or neither
+		a, b := pick(g.r, []string{"v", "nosuch", "g", "w"}), pick(g.r, []string{"v", "zz", "g2", "nosuch2"})
+		return &Cond{K: "cmp", Op: pick(g.r, []string{"=", "<>"}), L: pathOp(a), R: pathOp(b)}
 	case 0:
 		return &Cond{K: "fn", Fn: "attribute_exists", Args: []Operand{*pathOp(t.Hash[0])}}
 	case 1:
@@ -1123,6 +1135,28 @@ func (g *HistGen) genMgmt() {
 			ix := IndexSpec{Name: fmt.Sprintf("retype%d", len(g.ops)), Hash: [2]string{attr[0], other}}
 			g.ops = append(g.ops, &Op{Op: "updateTable", Table: HexS(t.Name), Retype: true, Changes: []IndexChange{{Create: &IndexDef{Name: HexS(ix.Name), Key: *keyDefOf(ix.Hash, ix.Range), TP: true}}}})
 			g.ops = append(g.ops, &Op{Op: "get", Table: HexS(t.Name), KeyItem: g.knownKey(t)})
+		} else if len(live) > 0 && g.p.BinIndexKeys && g.r.Chance(12) {
+			// an index on a binary attribute, created over items that have it — one of them with no bytes in it:
+			// the item has the attribute, so it is in the index
+			t := pick(g.r, live)
+			used := false
+			for _, o := range append(append([]IndexSpec{}, t.GSI...), t.LSI...) {
+				if o.Hash[0] == "gb" || (o.Range != nil && o.Range[0] == "gb") {
+					used = true
+				}
+			}
+			if !used {
+				for _, b := range [][]byte{{}, []byte("x"), {0, 255}} {
+					it := append(g.genKey(t), KV{[]byte("gb"), AV{T: "B", V: b}}, KV{[]byte("v"), S("1")})
+					g.ops = append(g.ops, &Op{Op: "put", Table: HexS(t.Name), Item: it})
+					g.notePut(t, it)
+				}
+				ix := IndexSpec{Name: fmt.Sprintf("bin%d", len(t.GSI)), Hash: [2]string{"gb", "B"}}
+				g.ops = append(g.ops, &Op{Op: "updateTable", Table: HexS(t.Name), Changes: []IndexChange{{Create: &IndexDef{Name: HexS(ix.Name), Key: *keyDefOf(ix.Hash, ix.Range), TP: true}}}})
+				t.GSI = append(t.GSI, ix)
+				g.ops = append(g.ops, &Op{Op: "query", Table: HexS(t.Name), Index: HexS(ix.Name), Scan: true, Forward: true})
+				g.ops = append(g.ops, &Op{Op: "describeTable", Table: HexS(t.Name)})
+			}
 		} else if len(live) > 0 {
 			t := pick(g.r, live)
 			ix := g.newIndexSpecFor(t, fmt.Sprintf("late%d", len(t.GSI)))
@@ -1209,7 +1243,47 @@ func (g *HistGen) genNative() {
 	}
 	t := pick(g.r, live)
 	texts := nativeTexts
-	switch g.r.Intn(8) {
+	switch g.r.Intn(9) {
+	case 8:
+		// a table created while the native interpreter is active is under it like the others: its registrations fire,
+		// an update without a registered updater is refused
+		if !g.native {
+			g.ops = append(g.ops, &Op{Op: "activateNative"})
+			g.native = true
+		}
+		bad := g.p.BadPct
+		g.p.BadPct = 0
+		g.createTable(fmt.Sprintf("late%d", len(g.tables)))
+		g.p.BadPct = bad
+		lt := g.tables[len(g.tables)-1]
+		it := Item{}
+		for _, kv := range g.genItemFor(lt) {
+			if string(kv.K) != "v" {
+				it = append(it, kv)
+			}
+		}
+		it = append(it, KV{[]byte("v"), S("1")})
+		g.ops = append(g.ops, &Op{Op: "put", Table: HexS(lt.Name), Item: it})
+		g.notePut(lt, it)
+		key := Item{}
+		for _, kv := range it {
+			if string(kv.K) == lt.Hash[0] || (lt.Range != nil && string(kv.K) == lt.Range[0]) {
+				key = append(key, kv)
+			}
+		}
+		if g.r.Bool() {
+			e := "v = :x"
+			g.ops = append(g.ops, &Op{Op: "registerMatcher", Table: HexS(lt.Name), Kind: "filter", Expr: HexS(e), ID: 2 + g.r.Intn(4)})
+			op := &Op{Op: "query", Table: HexS(lt.Name), Scan: true, Forward: true, Filter: HexS(e)}
+			op.setExprs(map[string]string{}, map[string]AV{":x": S("1")})
+			g.ops = append(g.ops, op)
+			g.regs = append(g.regs, e)
+		} else {
+			up := &Op{Op: "update", Table: HexS(lt.Name), KeyItem: key, Expr: HexS("SET w = :x")}
+			up.setExprs(map[string]string{}, map[string]AV{":x": S("2")})
+			g.ops = append(g.ops, up)
+			g.ops = append(g.ops, &Op{Op: "get", Table: HexS(lt.Name), KeyItem: key})
+		}
 	case 7:
 		// a registration is for one kind of expression: a matcher registered as a filter (or key condition) says
 		// nothing about a write condition with the same text, and the other way round
